@@ -95,6 +95,7 @@ struct Context {
     ls_len: usize,
     ss_ptr: usize,
     di_len: usize,
+    rl_len: usize,
     ip: usize,
     mode: ContextMode,
 }
@@ -559,6 +560,7 @@ impl State {
             ls_len: self.loops.len(),
             ss_ptr: self.special.len(),
             di_len: self.dict.len(),
+            rl_len: self.reverse_log.as_ref().map_or(0, |log| log.len()),
             ip: self.code_origin(),
             mode,
         };
@@ -611,6 +613,11 @@ impl State {
                     let val = self.pop_data()?;
                     self.code_emit_value(val)?;
                 }
+            }
+            // what the block logged refers to code that is gone now
+            let rl_len = self.ctx.rl_len;
+            if let Some(log) = self.reverse_log.as_mut() {
+                log.truncate(rl_len);
             }
         }
         let mut prev = prev;
